@@ -115,7 +115,7 @@ pub fn child_main(case_json: &str) {
 
 async fn child(case: &PushCase) -> ChildOut {
     let mut out = ChildOut::default();
-    let beh = Behaviour { synack: true, echo: true, heartbeat: true, server_settings: true, scheme: None, schemes: case.sessions.iter().map(|s| s.0.bytes()).collect(), heartbeat_limit: None };
+    let beh = Behaviour { synack: true, echo: true, heartbeat: true, server_settings: true, scheme: None, schemes: case.sessions.iter().map(|s| s.0.bytes()).collect(), heartbeat_limit: None, uot_echo: None };
     let srv = match RefServer::start(PASSWORD, beh).await {
         Ok(s) => s,
         Err(f) => {
